@@ -73,3 +73,7 @@ LEVEL_NOTE["C04"] = "Racing causes are real-scheduler races (many repeats, not e
 LEVEL_TEXT["C07"] = ("Exploration: the C04 history generator plus Conn.Dup/Engine.Dup, one engine start/stop per case, judged by three oracles that do not depend on callbacks: the process descriptor table before vs after, canary socket pairs that occupy a descriptor number right after the framework released it "
                      "(so any later read/write/close through the stale number is visible), and user-owned duplicates that must survive. A second generator stops the engine under a connect flood.")
 LEVEL_NOTE["C07"] = "Known finding listed in known_findings.txt (accepted sockets handed to an exited sub-reactor leak at shutdown; excluded by classification and counted). A ledger of every system call (shim) is not part of this check; canaries see only descriptor numbers that were re-occupied in time."
+
+LEVEL_TEXT["C06"] = ("Exploration: generated shutdown source (Engine.Stop, package Stop, Shutdown action from OnOpen/OnTraffic/OnClose/OnTick/Wake-induced OnTraffic, OnBoot, Client.Stop), moment and concurrent activity (idle/streaming/back-pressured connections, connect flood, async producers, slow OnTick, backlog of queued requests, Run and Rotate) "
+                     "against a real engine; oracle: return without error within the bound, one OnClose per opened connection by then, exactly one OnShutdown, no callback observed after the return (including a still-running OnTick), listener refuses connections, OnBoot variant starts nothing.")
+LEVEL_NOTE["C06"] = "Bounded liveness (10 s, confirmed by re-running the case); connect floods stop 3 ms after the request (an endless flood that outpaces the acceptor starves its request queue - noted in DESIGN.md, not judged); 'never again' is observed until the end of the session plus a grace period."
